@@ -579,6 +579,35 @@ func runC04(c *Ctx) {
 				sel = u.Atom(at)
 			}
 		}
+		writtenOut := false
+		if sel == False {
+			// no single selector predicate over (rule, request): the selector may be written out where
+			// it is used ("the request is a hostname request and the pattern is a hostname pattern",
+			// the pattern part possibly expanded).  The hostname must then be the target only for
+			// hostname requests, and the two targets must exclude each other.
+			var hostCond, urlCond Ref = False, False
+			for _, rt := range s.Rets {
+				for v, c1 := range u.Leaves(rt.Vals[0]) {
+					if v.Op != "call" || !strings.HasSuffix(v.Aux, "regexp.Regexp).MatchString") {
+						continue
+					}
+					for arg, c2 := range u.Leaves(v.Args[1]) {
+						cc := u.bdd.And(rt.Cond, u.bdd.And(c1, c2))
+						if arg.Op == "field" && arg.Args[0] == r && arg.Aux == "Hostname" {
+							hostCond = u.bdd.Or(hostCond, cc)
+						}
+						if arg.Op == "field" && arg.Args[0] == r && arg.Aux == "URL" {
+							urlCond = u.bdd.Or(urlCond, cc)
+						}
+					}
+				}
+			}
+			flag := u.Atom(u.Field(r, "IsHostnameRequest", types.Typ[types.Bool]))
+			if hostCond != False && urlCond != False && u.bdd.Implies(hostCond, flag) && u.bdd.And(hostCond, urlCond) == False {
+				writtenOut = true
+				sel = hostCond
+			}
+		}
 		nH, nU := 0, 0
 		for _, rt := range s.Rets {
 			for v, c1 := range u.Leaves(rt.Vals[0]) {
@@ -602,6 +631,7 @@ func runC04(c *Ctx) {
 						if sel == False || !u.bdd.Implies(cond, u.bdd.Not(sel)) {
 							bad = "the URL is matched outside the false edge of the target selector"
 						}
+						_ = writtenOut
 					default:
 						bad = "the pattern is matched against " + clip(u.Show(arg), 60)
 					}
@@ -862,4 +892,15 @@ func blocksAllPathsToReturn(fn *ssa.Function, from, via *ssa.BasicBlock) bool {
 		return true
 	}
 	return rec(from)
+}
+
+// funcNameOfCall maps the callee name of a call expression back to the FuncName key of a
+// library function ("" if there is none).
+func funcNameOfCall(c *Ctx, aux string) string {
+	for _, fn := range c.P.AllLibFuncs() {
+		if calleeName(fn) == aux {
+			return FuncName(fn)
+		}
+	}
+	return ""
 }
